@@ -90,7 +90,7 @@ func (x *c16sExec) next(k int) bool {
 		w := *in.pck.Move()
 		in.yielded = append(in.yielded, w)
 		in.done = false
-		x.trace.Int(1).U(uint64(w.Move)).I(int64(w.Weight))
+		x.trace.Int(1).U(hx.M2U(w.Move)).I(int64(w.Weight))
 		return true
 	}
 	in.done = true
@@ -101,7 +101,7 @@ func (x *c16sExec) probe() {
 	f := x.ms.Frame()
 	x.trace.Int(len(f))
 	for _, w := range f {
-		x.trace.U(uint64(w.Move)).I(int64(w.Weight))
+		x.trace.U(hx.M2U(w.Move)).I(int64(w.Weight))
 	}
 }
 func (x *c16sExec) output() string {
@@ -110,7 +110,7 @@ func (x *c16sExec) output() string {
 	for _, in := range x.insts {
 		n.Int(in.pos).B(in.done).Int(len(in.yielded))
 		for _, w := range in.yielded {
-			n.U(uint64(w.Move)).I(int64(w.Weight))
+			n.U(hx.M2U(w.Move)).I(int64(w.Weight))
 		}
 	}
 	if t := x.trace.String(); t != "" {
@@ -125,7 +125,7 @@ func runC16s(a hx.Args) string {
 	nPos := int(next())
 	hms := make([]move.Move, nPos)
 	for i := 0; i < nPos; i++ {
-		hms[i] = move.Move(next())
+		hms[i] = hx.U2M(uint64(next()))
 		next() // ipl
 		nN := int(next())
 		p += 2 * nN
@@ -169,7 +169,7 @@ func runC16s(a hx.Args) string {
 			x.pop()
 		case 3:
 			m, w := next(), next()
-			x.alloc(move.Move(m), Score(w))
+			x.alloc(hx.U2M(uint64(m)), Score(w))
 		case 4:
 			k, ps := next(), next()
 			x.newPicker(int(k), int(ps))
@@ -234,7 +234,7 @@ func (b *c16sBuilder) pop() {
 	b.x.pop()
 }
 func (b *c16sBuilder) alloc(m move.Move, w Score) {
-	b.ops.Int(3).U(uint64(m)).I(int64(w))
+	b.ops.Int(3).U(hx.M2U(m)).I(int64(w))
 	b.nOps++
 	b.desc = append(b.desc, fmt.Sprintf("Alloc(0x%04x).Weight=%d", uint16(m), w))
 	t := b.top()
@@ -270,7 +270,7 @@ func (b *c16sBuilder) probe() {
 	} else {
 		b.ops.Int(6, 1, len(t.ws))
 		for _, w := range t.ws {
-			b.ops.U(uint64(w.Move)).I(int64(w.Weight))
+			b.ops.U(hx.M2U(w.Move)).I(int64(w.Weight))
 		}
 	}
 	b.nOps++
@@ -280,7 +280,7 @@ func (b *c16sBuilder) probe() {
 
 func (b *c16sBuilder) dummies() {
 	for i := 1 + b.rng.Intn(4); i > 0; i-- {
-		b.alloc(move.Move(b.rng.Intn(1<<15)), Score(b.rng.Range(-16384, 16384)))
+		b.alloc(hx.U2M(uint64(b.rng.Intn(1<<15))), Score(b.rng.Range(-16384, 16384)))
 	}
 }
 
@@ -349,7 +349,7 @@ func c16sPool(rng *hx.Rng, roots []string) []*c16sPos {
 		case x < 5 && len(all) > 0:
 			hm = all[rng.Intn(len(all))]
 		case x < 7:
-			hm = move.Move(rng.Intn(1 << 15))
+			hm = hx.U2M(uint64(rng.Intn(1 << 15)))
 		}
 		ps := &c16sPos{fen: c16Fen(b), hm: hm, seed: rng.U64() >> 1}
 		if rng.Bool() {
@@ -443,13 +443,13 @@ func genC16s(rng *hx.Rng, n int, tier string, emit func(hx.Input)) {
 		in.Int(len(pool))
 		for _, ps := range pool {
 			noisy, quiet := c16Generated(ps.b)
-			in.U(uint64(ps.hm)).B(ps.b.IsPseudoLegal(ps.hm)).Int(len(noisy))
+			in.U(hx.M2U(ps.hm)).B(ps.b.IsPseudoLegal(ps.hm)).Int(len(noisy))
 			for _, m := range noisy {
-				in.U(uint64(m)).I(int64(ps.mr.RankNoisy(m, ps.b, ps.st)))
+				in.U(hx.M2U(m)).I(int64(ps.mr.RankNoisy(m, ps.b, ps.st)))
 			}
 			in.Int(len(quiet))
 			for _, m := range quiet {
-				in.U(uint64(m)).I(int64(ps.mr.RankQuiet(m, ps.b, ps.st)))
+				in.U(hx.M2U(m)).I(int64(ps.mr.RankQuiet(m, ps.b, ps.st)))
 			}
 		}
 		in.Int(b.nOps)
